@@ -5,7 +5,7 @@
    eventually lets a trial through.  Cancellations, panics and manual overrides are left out of this model: each of
    them can legitimately postpone the decision for ever (a trial that is always cancelled reports nothing). *)
 EXTENDS CircuitBreaker
-LCfgSet == [wt : {"count"}, N : {2}, min : {1}, thr : {2}, perm : {1, 2}, slowOn : {0}, slowThr : {2}, slowRate : {2},
+LCfgSet == [wt : {"count"}, N : {1}, min : {1}, thr : {2}, perm : {1, 2}, slowOn : {0}, slowThr : {2}, slowRate : {2},
             D : {4}, wait : {1}, cls : {"default"}, fb : {0}]
 LEnforce == [C04 |-> TRUE, X |-> FALSE]
 LOuts == {"ok", "e1"}
@@ -21,7 +21,7 @@ LiveSpec == Init /\ [][LiveNext]_vars /\ Fairness
 \* a half-open breaker does not stay half-open for ever - while enough callers are still to come for the trials it
 \* needs (caller identities are used once in this model, so that the state space is finite)
 Idle == {c \in Callers : st[c] = "idle"}
-HalfOpenDecides == (state = "half" /\ Cardinality(Idle) >= cfg.perm) ~> (state # "half")
+HalfOpenDecides == (state = "half" /\ hoAdm + Cardinality(Idle) >= cfg.perm) ~> (state # "half")
 \* an open breaker whose wait has elapsed is probed by the next caller (that time passes at all is the environment's
 \* business: callers arriving for ever within one instant never let the clock move)
 OpenIsProbed == (state = "open" /\ now - changedAt >= cfg.wait /\ Idle # {}) ~> (state # "open")
